@@ -27,25 +27,29 @@ type schedStep struct {
 	Index string `json:"index,omitempty"`
 	Event string `json:"event,omitempty"`
 	Query *Q     `json:"query,omitempty"`
+	Ms    int    `json:"ms,omitempty"`
+}
+
+type schedStepRes struct {
+	Op      string   `json:"op"`
+	Query   *QRes    `json:"query"`
+	Err     string   `json:"err"`
+	Running []uint64 `json:"running"`
+	Waiting []uint64 `json:"waiting"`
+	Ms      int64    `json:"ms"`
 }
 
 type schedRes struct {
-	Points   int64    `json:"points"`
-	Paused   bool     `json:"paused"`
-	PausedAt string   `json:"pausedAt"`
-	YBlocked bool     `json:"yBlocked"`
-	YStalled bool     `json:"yStalled"`
-	Labels   []string `json:"labels"`
-	X        []struct {
-		Op    string `json:"op"`
-		Query *QRes  `json:"query"`
-		Err   string `json:"err"`
-	} `json:"x"`
-	Y []struct {
-		Op    string `json:"op"`
-		Query *QRes  `json:"query"`
-		Err   string `json:"err"`
-	} `json:"y"`
+	Points   int64          `json:"points"`
+	Paused   bool           `json:"paused"`
+	PausedAt string         `json:"pausedAt"`
+	YBlocked bool           `json:"yBlocked"`
+	YStalled bool           `json:"yStalled"`
+	Labels   []string       `json:"labels"`
+	X        []schedStepRes `json:"x"`
+	Y        []schedStepRes `json:"y"`
+	Pre      []schedStepRes `json:"pre"`
+	Post     []schedStepRes `json:"post"`
 }
 
 var c11Writers = []string{"W1 ingest,flush", "W2 ingest,flush,rotate", "W3 ingest,size-rotation", "W4 rotate", "W5 other-index ingest,flush,rotate"}
